@@ -3,8 +3,8 @@
    Misorientation.map_into_symmetry_reduced_zone over iproduct(Gl, Gr) with
    early exit; OrientationRegion.__gt__), tied to the code by the
    correspondence check; theorems over the reals for ALL inputs. *)
-From Coq Require Import Reals ZArith QArith List String Bool.
-From Verif Require Import Scalar RInst KField KtoR Quat QuatAlg GroupK Groups GroupFacts SymDot SymDotK ZoneModel ZoneProofs
+From Coq Require Import Reals ZArith QArith List String Bool Lra.
+From Verif Require Import Scalar RInst KField KtoR KSign Quat QuatAlg GroupK Groups GroupFacts SymDot SymDotK ZoneModel ZoneProofs CoverCheck CoverSound
   CertCheck CertSound RegionCertsAll RegionCertsAllOK ExistCheck RegionExistAllOK UniqCheck UniqSound RegionUniqAllOK ProperGroups AllPairsCheck AllPairs.
 Import ListNotations.
 Local Open Scope R_scope.
@@ -187,4 +187,19 @@ Proof.
   apply inside_large_cell_minimal. intros d [<-|[]]. unfold qre; qunfold.
   rewrite !Rmult_0_l, !Rmult_0_r. unfold Rminus. rewrite ?Ropp_0, ?Rplus_0_l, ?Rplus_0_r, ?Rmult_1_l.
   rewrite Rabs_R0, Rabs_R1. apply Rle_0_1.
+Qed.
+
+(* non-vacuity of the hypotheses of the uniqueness theorems: the identity lies strictly inside the orientation region
+   of 432 (pair ("1", "432")), whose normals all have a positive scalar part *)
+Example C05_strictly_inside_nonvacuous :
+  exists rc (x : quat (T:=R)), In rc (List.concat all_region_certs) /\ rc_N rc <> [] /\ strictly_inside (rc_N rc) x.
+Proof.
+  destruct (find_rc "1" "432") as [rc|] eqn:E; [|vm_compute in E; discriminate].
+  exists rc, (1, 0, 0, 0). unfold find_rc in E. pose proof (find_some _ _ E) as [Hin _].
+  assert (Hpos : forallb (fun n => Kpos (kq_re n)) (rc_N rc) = true /\ negb (Nat.eqb (List.length (rc_N rc)) 0) = true).
+  { vm_compute in E. inversion E. vm_compute. split; reflexivity. }
+  destruct Hpos as [Hpos Hne].
+  split; [exact Hin|]. split; [destruct (rc_N rc); [discriminate|discriminate]|].
+  left. intros n Hn. rewrite forallb_forall in Hpos. specialize (Hpos n Hn). apply Kpos_sound in Hpos.
+  destruct n as [[[a b] c] d]. unfold kq_re in Hpos. unfold qtoR, qdot. rsimpl. lra.
 Qed.
